@@ -22,11 +22,16 @@ ASSUME = [
     "theorems are over Coq's R; the implementation computes in binary64",
     "precondition of the property: radii >= 0 and positive total volume (with total volume 0 the code divides 0 by 0)",
     "store model: a droplet record is (radius, position vector, width); `out` may alias drop1 and/or drop2",
-    "interface widths are numbers (an unspecified width is stored as NaN and is outside R)",
+    "interface widths are numbers (an unspecified width is stored as NaN and is outside R); with an unspecified width "
+    "on either side only volume / centre conservation and path agreement are judged (observed merged width: None)",
+    "merging droplets of different classes is outside the documented signature (merge(self: T, other: T)): "
+    "SphericalDroplet.merge(DiffuseDroplet) returns a SphericalDroplet and is judged for conservation; the other "
+    "direction and the Perturbed subclasses are listed under SUSPECTED in the evidence and not judged",
+    "both radii zero (total volume 0) is excluded by the property's precondition",
 ]
 RULE = ("translator sample goals: merge_radius_d / merge_pos_d / merge_width and the store-level merge_exec_d under the "
         "in-place aliasing, evaluated by the implementation (pure-Python merge_data) on seeded operands (radii over "
-        "2^-20..2^20 incl. zero-radius operands, positions of both signs) and compared inside Coq by interval "
+        "2^-50..2^50 incl. zero-radius operands, positions of both signs) and compared inside Coq by interval "
         "arithmetic; oracle cases: distinct (class, dim, operands) tuples, non-trivial = unequal radii; provenance stream: "
         "every way of obtaining a droplet (constructed, copy, deepcopy, pickle 2/HIGHEST, Emulsion member with and "
         "without copy / after get_linked_data, unpickled Emulsion, HDF5 round trip, previous merge) as first, as second "
@@ -60,7 +65,7 @@ def _rand_operand(rng: random.Random, d: int, zero_ok=True):
     elif kind < 0.5:
         r = rng.randrange(1, 64) / 8.0
     else:
-        r = math.ldexp(1 + rng.randrange(0, 1024) / 1024.0, rng.randrange(-20, 21))
+        r = math.ldexp(1 + rng.randrange(0, 1024) / 1024.0, rng.randrange(-50, 51))  # 30 orders of magnitude
     p = [rng.choice([-1, 1]) * math.ldexp(rng.randrange(0, 4096) / 64.0, rng.randrange(-3, 6)) for _ in range(d)]
     w = rng.randrange(0, 64) / 16.0
     return r, p, w
@@ -128,6 +133,10 @@ def check_pair(cls_name, d, A, B, use_numba=True):
     rm = _rec(m)
     if m is d1 or m is d2 or type(m) is not cls:
         fail("merge(inplace=False) does not return a new droplet of the same class")
+    kf = _kind_failure(m, cls, d)
+    if kf:
+        fail("result of the wrong kind: " + kf)
+        return fails
     if d1.data.tobytes() != b1 or d2.data.tobytes() != b2:
         fail("merge(inplace=False) modified an operand", after=[_rec(d1), _rec(d2)])
     if not (rm[0] >= 0 and _close(vol(rm[0], d), V1 + V2, REL)):
@@ -399,6 +408,291 @@ def oracle_provenance(rng, npairs, ctx=None):
     return fails
 
 
+# ------------------------------------------------------------------------------------------------
+# audit stream (notes/input_dimensions.md): boundary values, numeric types and scales, option defaults,
+# long chains, Emulsion-level merges, results of the wrong kind
+# ------------------------------------------------------------------------------------------------
+# Inputs whose behaviour on the unchanged tree is reported to the lead and NOT judged (see the final report):
+SUSPECTED = [
+    {"id": "mixed-classes-diffuse-first",
+     "what": "DiffuseDroplet.merge(SphericalDroplet) raises AttributeError (undocumented type); with inplace=True "
+             "the first operand is left half-merged (radius and position overwritten, width not)"},
+    {"id": "perturbed-subclass-amplitudes",
+     "what": "PerturbedDroplet2D/3D.merge: out-of-place result has all amplitudes 0, in-place keeps the first "
+             "operand's amplitudes: the two code paths differ for the Perturbed subclasses of DiffuseDroplet"},
+]
+
+
+def _kind_failure(m, cls, d):
+    """A result that is not even of the right kind (input_dimensions.md item 7)."""
+    if type(m) is not cls:
+        return f"result has class {type(m).__name__}, expected {cls.__name__}"
+    r = m.radius
+    if isinstance(r, complex) or not isinstance(float(r), float) or not math.isfinite(float(r)) or float(r) < 0:
+        return f"result radius {r!r} is not a finite non-negative real"
+    pos = np.asarray(m.position)
+    if pos.shape != (d,) or np.iscomplexobj(pos) or not np.all(np.isfinite(pos)):
+        return f"result position {pos!r} is not a finite real vector of length {d}"
+    return None
+
+
+def probe_suspected():
+    """Observed behaviour of the SUSPECTED inputs (reported, not judged)."""
+    from droplets.droplets import DiffuseDroplet, PerturbedDroplet2D, SphericalDroplet
+    out = {}
+    x, y = DiffuseDroplet([0.0, 0.0], 1.0, 0.5), SphericalDroplet([2.0, 0.0], 1.0)
+    before = _rec(x)
+    try:
+        x.merge(y, inplace=True)
+        out["mixed-classes-diffuse-first"] = f"returned {_rec(x)}"
+    except Exception as e:
+        out["mixed-classes-diffuse-first"] = (f"raised {type(e).__name__}; first operand before {before}, after {_rec(x)}")
+    import logging
+    logging.getLogger("droplets.droplets").setLevel(logging.ERROR)
+    p, q = PerturbedDroplet2D([0.0, 0.0], 1.0, 0.1, [0.1, 0.0]), PerturbedDroplet2D([2.0, 0.0], 1.0, 0.1, [0.0, 0.2])
+    m = p.merge(q)
+    pi_ = p.copy()
+    pi_.merge(q, inplace=True)
+    out["perturbed-subclass-amplitudes"] = (f"out-of-place amplitudes {m.amplitudes.tolist()}, in-place amplitudes "
+                                            f"{pi_.amplitudes.tolist()}")
+    return out
+
+
+def check_width_none(d, A, B, none1, none2):
+    """DiffuseDroplet with an unspecified width (None, stored as NaN) on either side: volume and centre must
+    still be conserved and the code paths must agree; the merged width has no defined mean (observed: None)."""
+    fails = []
+    cls = _classes()["DiffuseDroplet"]
+    w1, w2 = (None if none1 else A[2]), (None if none2 else B[2])
+    inp = {"class": "DiffuseDroplet", "dim": d, "r1": A[0], "p1": A[1], "w1": w1, "r2": B[0], "p2": B[1], "w2": w2}
+    x, y = cls(np.array(A[1], float), A[0], w1), cls(np.array(B[1], float), B[0], w2)
+    by = y.data.tobytes()
+    V1, V2 = vol(A[0], d), vol(B[0], d)
+    pscale = max([abs(v) for v in A[1] + B[1]] + [1e-300])
+    want = [(V1 * a + V2 * b) / (V1 + V2) for a, b in zip(A[1], B[1])]
+    m = x.merge(y)
+    x2 = x.copy()
+    x2.merge(y, inplace=True)
+    for tag, r in (("out-of-place", m), ("in-place", x2)):
+        k = _kind_failure(r, cls, d)
+        if k:
+            fails.append({"what": f"{tag} merge with an unspecified width: {k}", **inp})
+            continue
+        if not (_close(vol(float(r.radius), d), V1 + V2, REL)
+                and all(_close(float(a), b, REL, pscale) for a, b in zip(r.position, want))):
+            fails.append({"what": f"{tag} merge with an unspecified width does not conserve volume / centre of mass",
+                          **inp, "got": [float(r.radius), [float(v) for v in r.position]]})
+    if not (float(m.radius) == float(x2.radius) and np.array_equal(m.position, x2.position)
+            and m.interface_width == x2.interface_width):
+        fails.append({"what": "merge(inplace=True) differs from merge(inplace=False) with an unspecified width", **inp})
+    if y.data.tobytes() != by and not (np.isnan(y.data["interface_width"]) and none2):
+        fails.append({"what": "merge modified the second operand (unspecified width)", **inp})
+    return fails, m.interface_width
+
+
+def check_types(cls_name, d, A, B, rng):
+    """Radius / position / width given as Python int, float, numpy scalar, 0-d array, float32, list, tuple,
+    integer array: the merge result must equal the one for plain floats."""
+    fails = []
+    cls = _classes()[cls_name]
+    Ai = (float(round(A[0] * 4) / 4) or 0.25, [float(round(v)) for v in A[1]], float(round(A[2] * 4) / 4))
+    Bi = (float(round(B[0])) or 1.0, [float(round(v)) for v in B[1]], float(round(B[2] * 4) / 4))  # integral radius
+    ref = _rec(_make(cls_name, d, *Ai).merge(_make(cls_name, d, *Bi)))
+    sc = max([abs(v) for v in Ai[1] + Bi[1]] + [1.0])
+    kinds = {
+        "python int radius, tuple position": lambda o: (int(o[0]), tuple(int(v) for v in o[1])),
+        "numpy float64 scalar radius, list position": lambda o: (np.float64(o[0]), list(o[1])),
+        "0-d array radius, int64 array position": lambda o: (np.array(o[0]), np.array(o[1], dtype=np.int64)),
+        "float32 radius, float32 array position": lambda o: (np.float32(o[0]), np.array(o[1], dtype=np.float32)),
+    }
+    for name, conv in kinds.items():
+        inp = {"class": cls_name, "dim": d, "r1": Ai[0], "p1": Ai[1], "w1": Ai[2], "r2": Bi[0], "p2": Bi[1], "w2": Bi[2],
+               "input_type": name}
+        try:
+            rb, pb = conv(Bi)
+            ra, pa = (Ai[0], Ai[1]) if "int radius" in name else conv(Ai)   # A's radius may be fractional
+            x = cls(pa, ra) if cls_name == "SphericalDroplet" else cls(pa, ra, Ai[2])
+            y = cls(pb, rb) if cls_name == "SphericalDroplet" else cls(pb, rb, Bi[2])
+            m = x.merge(y)
+            k = _kind_failure(m, cls, d)
+            if k:
+                fails.append({"what": "merge of droplets built from other numeric types: " + k, **inp})
+            elif not _same_rec(_rec(m), ref, PATH_REL, sc):
+                fails.append({"what": "merge depends on the numeric type of the constructor arguments", **inp,
+                              "got": _rec(m), "expected": ref})
+            x.merge(y, inplace=True)
+            if not _same_rec(_rec(x), ref, PATH_REL, sc):
+                fails.append({"what": "in-place merge depends on the numeric type of the constructor arguments", **inp,
+                              "got": _rec(x), "expected": ref})
+        except Exception as e:
+            fails.append({"what": f"merging droplets built from other numeric types raised {type(e).__name__}: {e}", **inp})
+    return fails, list(kinds)
+
+
+def check_chain(cls_name, d, n, rng):
+    """n droplets merged (i) sequentially in place, (ii) as a balanced tree, (iii) inside an Emulsion through its
+    members, (iv) through the linked data records of the Emulsion (Class._merge_data on rows)."""
+    from droplets.emulsions import Emulsion
+    fails = []
+    cls = _classes()[cls_name]
+    ops = [_rand_operand(rng, d, zero_ok=(i % 7 == 3)) for i in range(n)]
+    ops = [(min(max(o[0], 0.0), 2.0 ** 20) if o[0] else 0.0, o[1], o[2]) for o in ops]
+    if ops[0][0] == 0:
+        ops[0] = (1.0, ops[0][1], ops[0][2])
+    Vs = [vol(o[0], d) for o in ops]
+    Vtot = math.fsum(Vs)
+    com = [math.fsum(V * o[1][i] for V, o in zip(Vs, ops)) / Vtot for i in range(d)]
+    pscale = max(abs(x) for o in ops for x in o[1]) or 1.0
+    tol = REL * max(1.0, n / 50)      # k merges x few ulp each
+    inp = {"class": cls_name, "dim": d, "chain_length": n, "first_operands": [{"r": o[0], "p": o[1], "w": o[2]} for o in ops[:4]]}
+
+    def ok(m):
+        r, p, _ = _rec(m)
+        return _close(vol(r, d), Vtot, tol) and all(_close(a, b, tol, pscale) for a, b in zip(p, com))
+
+    acc = _make(cls_name, d, *ops[0])
+    for o in ops[1:]:
+        acc.merge(_make(cls_name, d, *o), inplace=True)
+    if _kind_failure(acc, cls, d) or not ok(acc):
+        fails.append({"what": "sequential in-place chain does not conserve total volume / centre of mass", **inp,
+                      "got": _rec(acc), "expected_volume": Vtot, "expected_centre": com})
+    layer = [_make(cls_name, d, *o) for o in ops]
+    while len(layer) > 1:
+        nxt = [layer[i].merge(layer[i + 1]) for i in range(0, len(layer) - 1, 2)]
+        if len(layer) % 2:
+            nxt.append(layer[-1])
+        layer = nxt
+    if _kind_failure(layer[0], cls, d) or not ok(layer[0]):
+        fails.append({"what": "balanced merge tree does not conserve total volume / centre of mass", **inp,
+                      "got": _rec(layer[0]), "expected_volume": Vtot, "expected_centre": com})
+    ne = min(n, 60)
+    sub = ops[:ne]
+    Vs2 = [vol(o[0], d) for o in sub]
+    Vt2 = math.fsum(Vs2)
+    com2 = [math.fsum(V * o[1][i] for V, o in zip(Vs2, sub)) / Vt2 for i in range(d)]
+
+    def ok2(m):
+        r, p, _ = _rec(m)
+        return _close(vol(r, d), Vt2, tol) and all(_close(a, b, tol, pscale) for a, b in zip(p, com2))
+
+    em = Emulsion([_make(cls_name, d, *o) for o in sub])
+    for i in range(1, len(em)):
+        em[0].merge(em[i], inplace=True)
+    if not ok2(em[0]):
+        fails.append({"what": "merging the members of an Emulsion into the first one does not conserve volume / centre",
+                      **inp, "got": _rec(em[0]), "expected_volume": Vt2, "expected_centre": com2})
+    em = Emulsion([_make(cls_name, d, *o) for o in sub])
+    rows = em.get_linked_data()
+    for i in range(1, len(rows)):
+        cls._merge_data(rows[0], rows[i], out=rows[0])
+    if not ok2(em[0]):
+        fails.append({"what": "Class._merge_data on the linked data rows of an Emulsion does not conserve volume / centre "
+                              "(or the member does not see the merged record)",
+                      **inp, "got": _rec(em[0]), "expected_volume": Vt2, "expected_centre": com2})
+    return fails
+
+
+def oracle_audit(rng, ctx=None, thorough=False):
+    fails = []
+
+    def cnt(key, val):
+        if ctx is not None:
+            ctx.count(key, val)
+
+    for cls_name in ("SphericalDroplet", "DiffuseDroplet"):
+        for d in (1, 2, 3):
+            # equal positions (equal and unequal radii, one vanished operand at the same place)
+            A, B = _pair(rng, d)
+            for rb in (A[0] or 1.0, (A[0] or 1.0) * 3.5, 0.0):
+                A2, B2 = (A[0] or 1.0, A[1], A[2]), (rb, list(A[1]), B[2])
+                fails += check_pair(cls_name, d, A2, B2, use_numba=False)
+                cnt("operand_kind", "equal positions")
+                if ctx is not None:
+                    ctx.case(["equal-positions", cls_name, d, A2, B2])
+            # both operands vanished: excluded by the precondition (positive total volume); counted, not judged
+            cnt("operand_kind", "both radii zero (excluded by the precondition, not judged)")
+            # extreme and mixed scales: 2^-50 .. 2^50
+            for e1, e2 in ((-50, 50), (50, -50), (50, 50), (-50, -50), (0, 45), (-45, 0)):
+                A, B = _pair(rng, d)
+                A2 = (math.ldexp(1 + rng.randrange(0, 8) / 8.0, e1), A[1], A[2])
+                B2 = (math.ldexp(1 + rng.randrange(0, 8) / 8.0, e2), B[1], B[2])
+                fails += check_pair(cls_name, d, A2, B2, use_numba=False)
+                cnt("radius_scale_log2", f"({e1}, {e2})")
+                if ctx is not None:
+                    ctx.case(["scales", cls_name, d, A2, B2])
+            # numeric types of the constructor arguments
+            A, B = _pair(rng, d)
+            f, kinds = check_types(cls_name, d, A, B, rng)
+            fails += f
+            for k in kinds:
+                cnt("constructor_argument_types", k)
+            # default keyword: merge(other) is the out-of-place merge
+            x, y = _make(cls_name, d, *(A[0] or 1.0, A[1], A[2])), _make(cls_name, d, *B)
+            bx = x.data.tobytes()
+            m0, m1 = x.merge(y), x.merge(y, inplace=False)
+            if m0 is x or x.data.tobytes() != bx or not _same_rec(_rec(m0), _rec(m1), 0.0, 0.0):
+                fails.append({"what": "merge(other) without the keyword is not the out-of-place merge", "class": cls_name, "dim": d,
+                              "r1": A[0] or 1.0, "p1": A[1], "r2": B[0], "p2": B[1]})
+            cnt("inplace_keyword", "omitted (default)")
+            # long chains and Emulsion-level merges
+            for n in ((3, 40) if not thorough else (3, 40, 1200)):
+                fails += check_chain(cls_name, d, n, rng)
+                cnt("chain_length", n)
+        # width kinds (DiffuseDroplet): 0.0 and None on either side
+        if cls_name == "DiffuseDroplet":
+            for d in (1, 2, 3):
+                A, B = _pair(rng, d)
+                A, B = (A[0] or 1.0, A[1], A[2]), (B[0] or 2.0, B[1], B[2])
+                for w1, w2 in ((0.0, B[2] or 0.5), (A[2] or 0.5, 0.0), (0.0, 0.0)):
+                    fails += check_pair(cls_name, d, (A[0], A[1], w1), (B[0], B[1], w2), use_numba=False)
+                    cnt("width_kind", f"({'0.0' if w1 == 0 else 'value'}, {'0.0' if w2 == 0 else 'value'})")
+                for n1, n2 in ((True, False), (False, True), (True, True)):
+                    f, wres = check_width_none(d, A, B, n1, n2)
+                    fails += f
+                    cnt("width_kind", f"({'None' if n1 else 'value'}, {'None' if n2 else 'value'}) -> merged width {wres}")
+    # mixed classes, first operand spherical (returns a SphericalDroplet): judged for conservation
+    from droplets.droplets import DiffuseDroplet, SphericalDroplet
+    for d in (1, 2, 3):
+        A, B = _pair(rng, d)
+        A, B = (A[0] or 1.0, A[1], A[2]), (B[0] or 2.0, B[1], B[2])
+        x, y = _make("SphericalDroplet", d, *A), _make("DiffuseDroplet", d, *B)
+        by = y.data.tobytes()
+        inp = {"class": "SphericalDroplet.merge(DiffuseDroplet)", "dim": d, "r1": A[0], "p1": A[1], "r2": B[0], "p2": B[1], "w2": B[2]}
+        try:
+            m = x.merge(y)
+            V1, V2 = vol(A[0], d), vol(B[0], d)
+            ps = max([abs(v) for v in A[1] + B[1]] + [1e-300])
+            want = [(V1 * a + V2 * b) / (V1 + V2) for a, b in zip(A[1], B[1])]
+            k = _kind_failure(m, SphericalDroplet, d)
+            if k or not (_close(vol(float(m.radius), d), V1 + V2, REL)
+                         and all(_close(float(a), b, REL, ps) for a, b in zip(m.position, want))) or y.data.tobytes() != by:
+                fails.append({"what": "SphericalDroplet.merge(DiffuseDroplet) returns a droplet that does not conserve volume / "
+                                      "centre of mass (or modifies the second operand)" + (": " + k if k else ""), **inp})
+        except Exception as e:
+            if y.data.tobytes() != by or not _same_rec(_rec(x), _rec(_make("SphericalDroplet", d, *A)), 0.0, 0.0):
+                fails.append({"what": f"SphericalDroplet.merge(DiffuseDroplet) raised {type(e).__name__} and modified an operand", **inp})
+        cnt("operand_classes", "SphericalDroplet.merge(DiffuseDroplet)")
+    cnt("operand_classes", "DiffuseDroplet.merge(SphericalDroplet): SUSPECTED, reported, not judged")
+    cnt("operand_classes", "Perturbed subclasses: SUSPECTED, reported, not judged")
+    return fails
+
+
+def _sample_goals_retry(ctx, name, req, goals, unfold, tries=3):
+    """vlib.sample_goals, repeated when coqc died without any output (the signature of the kernel's OOM killer on
+    the shared machine: a real Coq error always prints a message).  Nothing is retried when Coq reported anything."""
+    import time
+    marker = f"sample goals {name}: cannot evaluate: "
+    for attempt in range(tries):
+        res = vlib.sample_goals(ctx, name, req, goals, unfold)
+        if marker in ctx.broken and attempt + 1 < tries:
+            ctx.broken.remove(marker)
+            ctx.notes.append(f"sample goals {name}: coqc died without output (killed); retried")
+            time.sleep(5 + 10 * attempt)
+            continue
+        return res
+    return res
+
+
 def _sample_goals(ctx, rng):
     """Generated definitions vs the implementation's own results, compared inside Coq."""
     goals, exec_goals = [], []
@@ -411,6 +705,12 @@ def _sample_goals(ctx, rng):
                 B = (0.0, B[1], B[2])
             elif k == 1 and B[0] > 0:
                 A = (0.0, A[1], A[2])
+            elif k == 2:                # equal positions
+                A, B = (A[0] or 1.0, A[1], A[2]), (B[0] or 2.5, list(A[1]), B[2])
+            elif k == 3:                # 30 orders of magnitude between the radii
+                A, B = (math.ldexp(1.25, -50), A[1], A[2]), (math.ldexp(1.5, 50), B[1], B[2])
+            ctx.count("sample_goal_kind", {0: "second operand vanished", 1: "first operand vanished", 2: "equal positions",
+                                           3: "radii 2^-50 and 2^50"}.get(k, "random"))
             d1, d2 = _make("DiffuseDroplet", d, *A), _make("DiffuseDroplet", d, *B)
             out = np.record(np.zeros_like(d1.data))
             cls._merge_data(d1.data, d2.data, out=out)
@@ -449,7 +749,7 @@ def _sample_goals(ctx, rng):
     from concurrent.futures import ThreadPoolExecutor
     shards = [(f"c11_{i}", goals[i::6], unfold) for i in range(6)] + [("c11_exec", exec_goals, unfold_exec)]
     with ThreadPoolExecutor(8) as ex:
-        res = list(ex.map(lambda a: vlib.sample_goals(ctx, a[0], req, a[1], a[2]), shards))
+        res = list(ex.map(lambda a: _sample_goals_retry(ctx, a[0], req, a[1], a[2]), shards))
     return [g for r in res for g in r]
 
 
@@ -471,6 +771,14 @@ def check(ctx: vlib.Ctx) -> int:
     big = bool(ctx.broken)
     fails = oracle(rng, ctx.scale(12, 120) * (3 if big else 1), ctx.scale(4, 40) * (3 if big else 1), True, ctx)
     fails += oracle_provenance(rng, ctx.scale(1, 6), ctx)
+    fails += oracle_audit(rng, ctx, thorough=not ctx.quick)
+    try:
+        sus = probe_suspected()
+    except Exception as e:  # reported, never judged
+        sus = {"probe": f"raised {type(e).__name__}: {e}"}
+    ctx.extra["suspected_not_judged"] = [{**x, "observed": sus.get(x["id"])} for x in SUSPECTED]
+    ctx.notes.append("SUSPECTED inputs (reported to the lead, not judged): " + "; ".join(
+        f"{x['id']}: {sus.get(x['id'])}" for x in SUSPECTED))
     seen = set()
     for f in fails:
         if f["what"] in seen:
